@@ -13,8 +13,8 @@ from harness.common import Check, chunks, pmap, tmap, NPROC
 
 TIERS = {"quick": dict(nrandom=60, f1_sample=240, L=4, Lcat=5),
          "thorough": dict(nrandom=1500, f1_sample=None, L=5, Lcat=6)}
-CAT = ["ASSGN2", "NULLABLE", "AMBIG", "LEFTREC", "RIGHTREC", "MULTICHAR", "TWOSTART", "NUM", "XMLISH"]
-CAT_L = {"ASSGN2": 6, "NUM": 4, "XMLISH": 5, "LEFTREC": 5, "MULTICHAR": 6}   # alphabets are larger: keep the string count down
+CAT = ["ASSGN2", "NULLABLE", "AMBIG", "LEFTREC", "RIGHTREC", "MULTICHAR", "TWOSTART", "NUM", "XMLISH", "RECSTART_R", "RECSTART_L", "RECSTART_M"]
+CAT_L = {"ASSGN2": 5, "NUM": 4, "XMLISH": 5, "LEFTREC": 5, "MULTICHAR": 6}   # alphabets are larger: keep the string count down
 JCFG = "CONSTANTS NRandom = 1\nINIT JInit\nNEXT JNext\nINVARIANT Judged\nCHECK_DEADLOCK FALSE\n"
 
 
@@ -61,6 +61,9 @@ def run(chk, cases_in=None):
                 cases.append({"g": g, "L": P["L"], "family": "tiny2"})
             for g in gen["f2"]:
                 cases.append({"g": g, "L": P["L"], "family": "random3"})
+            chk.cov["family3_grammars"] = len(gen["f3"])
+            for g in gen["f3"]:
+                cases.append({"g": g, "L": P["L"], "family": "nullable-chain"})
             for name in CAT:
                 L = min(P["Lcat"], CAT_L.get(name, P["Lcat"]))
                 cases.append({"g": pj.grammar_to_json(catalogue.GRAMMARS[name]), "L": L, "family": "cat-" + name})
@@ -91,7 +94,7 @@ def run(chk, cases_in=None):
                 chk.note("member_rows", members)
                 if members and members < nrows:
                     chk.nontrivial(idx)
-                if not adm and fam[idx] != "cat-TWOSTART" and not fam[idx].startswith("cat-"):
+                if not adm and not fam[idx].startswith("cat-"):
                     raise RuntimeError("inadmissible grammar generated")
             for _, idx, j, clause in r.tuples("MISMATCH"):
                 row = byidx[idx]["rows"][j - 1]
